@@ -354,6 +354,21 @@ def execute(sc, tape=None):
                 viol = {"oracle": "nothing-after-close", "signature": dict(sig, oracle="nothing-after-close"),
                         "detail": "%d writes after the connection was shut down" % c.write_after_close}
                 break
+            if cls is None and b"\n" not in _payload(rq, sc["tls_configured"]) and not rq["half_close"]:
+                # the client never finished its request line and never closed: there is no request line to
+                # answer.  What is owed is that the server gives up in bounded time, without an internal error,
+                # and does not answer a fragment as if it was the request.
+                counters["unfinished_request_line_dropped"] = counters.get("unfinished_request_line_dropped", 0) + 1
+                last = c.last_client_byte_at if c.last_client_byte_at is not None else c.closed_at
+                if resp:
+                    viol = {"oracle": "fragment-not-answered", "signature": dict(sig, oracle="fragment-not-answered"),
+                            "detail": "request line %r never completed, yet %r was sent" % (data[:80], resp[:80])}
+                    break
+                if c.closed_at is not None and last is not None and c.closed_at - last > TIMEOUT + 1.0:
+                    viol = {"oracle": "bounded-time", "signature": dict(sig, oracle="bounded-time"),
+                            "detail": "closed %.3f s after the last client byte" % (c.closed_at - last)}
+                    break
+                continue
             if cls is None or (cls or "").startswith("EXC:"):
                 viol = {"oracle": "protocol-selected",
                         "signature": dict(sig, oracle="protocol-selected", exc=cls),
@@ -409,7 +424,7 @@ def execute(sc, tape=None):
                          "spartan": "spartan"}[fam]
                 a = proto.normalize(pname, resp, dir_only=True)
                 b = proto.normalize(pname, want, dir_only=True)
-                shapes.add((cls, rq["label"], rq["kind"] if rq["label"].startswith("valid-") else "-", pre_cache))
+                shapes.add((cls or "-", rq["label"], rq["kind"] if rq["label"].startswith("valid-") else "-", pre_cache))
                 if a != b and rq["label"] == "cache-file":
                     # known finding D17 must not hide a different violation later in the history
                     deferred = deferred or {"oracle": "history-independent",
